@@ -872,6 +872,16 @@ pub fn check_step(cx: &StepCtx) -> Vec<Violation> {
                 if !(post.time - pre.raw[6] as u64 > pre.epoch) {
                     out.push(v("C08", "undelegated-within-epoch", format!("{}: undelegation at {} only {} after the previous one (epoch {})", kind, post.time, post.time - pre.raw[6] as u64, pre.epoch)));
                 }
+                // the same gate judged against the history itself (not the hub's own clock field):
+                // consecutive undelegations are more than one epoch period apart
+                if let Some(p) = pre.hist.last() {
+                    if !(n.time > p.time && n.time - p.time > pre.epoch) {
+                        out.push(v("C08", "undelegated-within-epoch", format!("{}: batch {} undelegated at {} only {} after batch {} (epoch {})", kind, n.id, n.time, n.time.saturating_sub(p.time), p.id, pre.epoch)));
+                    }
+                }
+                if post.raw[6] as u64 != post.time || n.time != post.time {
+                    out.push(v("C08", "undelegation-clock-not-restarted", format!("{}: batch {} undelegated at {} (entry time {}) but last_unbonded_time = {}", kind, n.id, post.time, n.time, post.raw[6])));
+                }
                 if n.id != pre.batch.0 || post.batch.0 != pre.batch.0 + 1 {
                     out.push(v("C08", "batch-id-jump", format!("{}: closed {} open {} → {}", kind, n.id, pre.batch.0, post.batch.0)));
                 }
@@ -1038,10 +1048,10 @@ pub fn check_step(cx: &StepCtx) -> Vec<Violation> {
             // stSei pool rises by exactly the re-bonded amount
             let rebonded: u128 = cx.effects.iter().map(|e| match e { Effect::Delegate { amt, .. } => *amt, _ => 0 }).sum();
             if let (Some(a), Some(b)) = (pre.q, post.q) {
-                if b[3] != a[3] + rebonded && pre.delegated >= pre.raw[2] + pre.raw[3] {
+                if b[3] != a[3] + rebonded {
                     out.push(v("C19", "stsei-pool-ne-rebonded", format!("stSei pool {} → {} with {} re-bonded", a[3], b[3], rebonded)));
                 }
-                if pre.delegated >= pre.raw[2] + pre.raw[3] && (b[2] != a[2]) {
+                if b[2] != a[2] {
                     out.push(v("C19", "bsei-pool-changed", format!("bSei pool {} → {}", a[2], b[2])));
                 }
             }
